@@ -595,7 +595,7 @@ def coq_env(name, e):
 COQ_EVAL = """
 Definition cls_code (o : option finding) : nat :=
   match o with None => 0 | Some multi_literal => 1 | Some bare_cr_header => 2
-             | Some name_unescaped => 3 | Some flag_atom => 4 end.
+             | Some name_unescaped => 3 | Some flag_atom => 4 | Some _ => 5 end.
 Definition items_of (uidmode : bool) (arg : str) : str :=
   if uidmode then uid_fetch_items arg else fetch_items arg.
 Definition seq_of (obs : str) : nat := Z.to_nat (digits_val (fst (span_digits (skipn 2 obs) [])) 0).
@@ -608,6 +608,10 @@ Definition model_code (c : bool * str * fenv * str) : nat :=
   end.
 Definition cls_of (c : bool * str * fenv * str) : nat :=
   let '(u, arg, e, obs) := c in cls_code (classify_fetch (items_of u arg) e).
+(* hypothesis of c13_fetch_assembly_ok on the model's own contributions *)
+Definition okb_of (c : bool * str * fenv * str) : bool :=
+  let '(u, arg, e, obs) := c in
+  match fetch_plan (items_of u arg) e with Some plan => forallb out_okb plan | None => true end.
 Definition spec_of (c : bool * str * fenv * str) : bool :=
   let '(u, arg, e, obs) := c in
   wf_stream (send obs) && match fetch_pairs (send obs) with Some _ => true | None => false end.
@@ -746,7 +750,7 @@ def gen_scenario(chk, hostile):
 def evaluate(chk, scs, results, label):
     """Judge every scenario; returns number of model disagreements examined."""
     analyses = [analyse_scenario(sc, res) for sc, res in zip(scs, results)]
-    body = C.COQ_CASE_HEADER + "From Raven Require Import Base.Enum Base.GoStrBytes Spec.Grammar Model.Respond Model.RespondFetch.\nLocal Open Scope list_scope.\n" + COQ_EVAL
+    body = C.COQ_CASE_HEADER + "From Raven Require Import Base.Enum Base.GoStrBytes Spec.Grammar Model.Respond Model.RespondFetch Proof.RespondAsm.\nLocal Open Scope list_scope.\n" + COQ_EVAL
     cases = []   # (scenario idx, fetch case, env)
     for si, (sc, an) in enumerate(zip(scs, analyses)):
         for a in an["anomalies"]:
@@ -775,14 +779,15 @@ def evaluate(chk, scs, results, label):
     body += "Definition model_codes := Eval vm_compute in map model_code cases.\nPrint model_codes.\n"
     body += "Definition cls_codes := Eval vm_compute in map cls_of cases.\nPrint cls_codes.\n"
     body += "Definition spec_codes := Eval vm_compute in map (fun c => if spec_of c then 1 else 0) cases.\nPrint spec_codes.\n"
+    body += "Definition okb_codes := Eval vm_compute in map (fun c => if okb_of c then 1 else 0) cases.\nPrint okb_codes.\n"
     body += "Definition streams : list str := [\n%s].\n" % ";\n".join(cstr(s) for s in stream_cases)
     body += "Definition stream_codes := Eval vm_compute in map (fun s => if wf_stream s then 1 else 0) streams.\nPrint stream_codes.\n"
     rc, log = C.coq_eval_cases("C13" + label, body, timeout=1500)
     if rc != 0:
         chk.broken_obligation("in-Coq evaluation of the C13 %s cases failed:\n%s" % (label, log[-1500:]))
         return 0
-    mc, cc, sc_, stc = (parse_nat_list(log, x) for x in ("model_codes", "cls_codes", "spec_codes", "stream_codes"))
-    if None in (mc, cc, sc_, stc) or len(mc) != len(cases) or len(stc) != len(stream_cases):
+    mc, cc, sc_, stc, okc = (parse_nat_list(log, x) for x in ("model_codes", "cls_codes", "spec_codes", "stream_codes", "okb_codes"))
+    if None in (mc, cc, sc_, stc, okc) or len(mc) != len(cases) or len(stc) != len(stream_cases):
         chk.broken_obligation("could not read the C13 %s results from Coq output:\n%s" % (label, log[-800:]))
         return 0
     # twin cross-check: whole session streams and every FETCH line
@@ -790,8 +795,14 @@ def evaluate(chk, scs, results, label):
         if T.wf_stream(s) != (code == "1"):
             chk.broken_obligation("Python twin of wf_stream disagrees with the Coq recogniser on a session stream", {"suite": "twin", "stream": C.latin(s)})
     nd = 0
-    for (si, fc, e), m, c, sp in zip(cases, mc, cc, sc_):
+    for (si, fc, e), m, c, sp, okb in zip(cases, mc, cc, sc_, okc):
         obs = fc["obs_line"] + b"\r\n"
+        if c == "0" and okb != "1" and m == "0":
+            chk.broken_obligation("the model's contributions for request %r do not meet the token hypothesis of c13_fetch_assembly_ok although no finding class applies" % fc["text"],
+                                  {"suite": "wire", "command": fc["text"], "response": C.latin(fc["recv"][:2000])})
+        if c == "0" and m == "0" and sp != "1":
+            chk.broken_obligation("model line (equal to the implementation's) is not well-formed although classify_fetch = None for request %r" % fc["text"],
+                                  {"suite": "wire", "command": fc["text"], "response": C.latin(fc["recv"][:2000])})
         twin_spec = T.wf_stream(obs) and T.fetch_pairs(obs) is not None
         if twin_spec != (sp == "1"):
             chk.broken_obligation("Python twin of the FETCH recogniser disagrees with Spec/Grammar.v on %r" % obs[:200], {"suite": "twin", "line": C.latin(obs)})
